@@ -33,6 +33,7 @@ def check(ctx, cfg):
     r8(ctx, cfg)
     r9(ctx, cfg)
     r10(ctx, cfg)
+    r11(ctx, cfg)
 
 
 def r8(ctx, cfg):
@@ -563,6 +564,23 @@ def r10(ctx, cfg):
             r = peel(x[1])
             return r[0] == "ok" and peel(r[1])[0] == "call" and peel(r[1])[1] == W + "code_data" and just(peel(r[1])[2][1], lambda y: reqf(y, "CodeInfo", "code_id"))
         return just(o, pred)
+    # the record itself: contract_data(storage, address) is CONTRACTS.load on the wasm read view of that store under that address
+    cd = F.fn("<wasm::WasmKeeper as wasm::Wasm>::contract_data")
+    if cd is not None:
+        def is_load(x):
+            if not (x[0] == "call" and x[1] in ("cw_storage_plus::Map::load", "cw_storage_plus::Map::may_load") and peel(x[2][0]) == ("item", "wasm::CONTRACTS")):
+                return False
+            st = peel(x[2][1])
+            return st[0] == "call" and st[1] == "prefixed_storage::prefixed_read" and is_param(st[2][0], "storage") and peel(st[2][1]) == ("item", "wasm::NAMESPACE_WASM") and \
+                is_param(x[2][2], "address")
+        vals = q.success_payloads(P, cd)
+        cs = []
+        for v in vals:
+            contains(v, lambda x: cs.append(x[1]) if x[0] == "call" else False)
+        okc = bool(vals) and all(contains(v, is_load) for v in vals) and \
+            all(c.startswith("cw_storage_plus::Map::") or c == "prefixed_storage::prefixed_read" or c.rsplit("::", 1)[-1] in ("map_err", "into", "from", "ok_or_else", "ok_or") for c in cs)
+        ctx.ob(R, cd.key, "contract_data-is-the-registry-entry-of-that-address", okc, "contract_data answers %s" % [fmt(peel(v))[:100] for v in vals], fn=cd,
+               sample="CONTRACTS.load(prefixed_read(storage, NAMESPACE_WASM), address)")
     ci = [(b, t) for b, t in f.calls() if t["callee"]["key"] == "cosmwasm_std::ContractInfoResponse::new"]
     ok = len(ci) == 1
     if ok:
@@ -578,3 +596,37 @@ def r10(ctx, cfg):
             ok = just(a[0], lambda y: reqf(y, "CodeInfo", "code_id")) and field_of_code(a[1], "creator") and field_of_code(a[2], "checksum")
         ctx.ob(R, key, "CodeInfo-answers-the-stored-record", ok, "the CodeInfo query does not answer (code_id, creator and checksum of code_data(code_id))", fn=f,
                sample="CodeInfoResponse::new(code_id, code_data.creator, code_data.checksum)")
+
+
+def r11(ctx, cfg):
+    """"explicitly chosen ids are honoured ... a contract's recorded ... creator ... exactly what was supplied": App's code-registry
+    entry points hand their own arguments, as they are and in order, to the wasm module's method of the same kind and answer
+    with its result (`store_code` supplies the fixed default creator and nothing of its own)"""
+    F, P = cfg.facts, cfg.prov
+    R = "C11.R11"
+    table = {"store_code": ("wasm::Wasm::store_code", [None, "code"]), "store_code_with_creator": ("wasm::Wasm::store_code", ["creator", "code"]),
+             "store_code_with_id": ("wasm::Wasm::store_code_with_id", ["creator", "code_id", "code"]), "duplicate_code": ("wasm::Wasm::duplicate_code", ["code_id"])}
+    for name, (callee, params) in sorted(table.items()):
+        key = "app::App::" + name
+        f = ctx.need_fn(R, key)
+        if f is None:
+            continue
+        vals = [peel(v) for v in q.success_payloads(P, f)]
+        ok = bool(vals)
+        for v in vals:
+            while v[0] in ("ok",):
+                v = peel(v[1])
+            # (`store_code` may also be written as `self.store_code_with_creator(<default creator>, code)`: that one is held to its own row)
+            via_sibling = name == "store_code" and v[0] == "call" and v[1] == "app::App::store_code_with_creator" and len(v[2]) == 3 and is_param(v[2][0], "self")
+            if not via_sibling and not (v[0] == "call" and v[1] == callee and len(v[2]) == len(params) + 1):
+                ok = False
+                continue
+            recv = peel(v[2][0])
+            ok = ok and (via_sibling or (recv[0] == "field" and recv[2] == "wasm" and contains(recv[1], lambda x: is_param(x, "self"))))
+            for a, pn in zip(v[2][1:], params):
+                if pn is None:
+                    ok = ok and not contains(a, lambda x: x[0] == "param")
+                else:
+                    ok = ok and just(a, lambda y, pn=pn: y[0] == "param" and y[2] == pn)
+        ctx.ob(R, key, "hands-its-arguments-to-the-wasm-module", ok, "%s does not answer self.router.wasm.%s(%s)" % (name, callee.rsplit("::", 1)[-1], ", ".join(p or "<default creator>" for p in params)),
+               fn=f, sample="%s(%s)" % (callee.rsplit("::", 1)[-1], ", ".join(p or "<default creator>" for p in params)))
